@@ -233,6 +233,10 @@ def compare(obs, c):
     p = c["p"]
     if obs["cp"]["st"] != p["st"]:
         mm.append("conf_pack_outcome")
+        if p["st"] == "done" and c.get("consistent"):
+            # values that satisfy the declaration, which the specification's pack machine lays out at their declared positions
+            # without any collision: the code must serialise them too (C02, positioned declarations included)
+            mm.append("C02_PackSucceedsPos")
     elif p["st"] == "done":
         if obs["cp"]["out"] != p["out"]:
             mm.append("conf_out")
